@@ -729,7 +729,12 @@ func (w *Wallet) recovery(chainClient chain.Interface,
 	}
 	err := walletdb.View(w.db, func(tx walletdb.ReadTx) error {
 		txMgrNS := tx.ReadBucket(wtxmgrNamespaceKey)
-		credits, err := w.TxStore.UnspentOutputs(txMgrNS)
+		// Like the start-up rescan (activeData), a resumed recovery
+		// must watch every known output that may still be spent on
+		// chain, including leased outputs and outputs spent by an
+		// unmined transaction: UnspentOutputs omits both, and their
+		// spends in the blocks still to be scanned would go unnoticed.
+		credits, err := w.TxStore.OutputsToWatch(txMgrNS)
 		if err != nil {
 			return err
 		}
